@@ -65,7 +65,7 @@ class ConstOperands:
     def related(self, draw, base, shape, kind=None):
         if kind is None:
             # mostly the same kind, sometimes the other one (int with float: numpy promotes)
-            kind = base.get("kind") if draw(st.integers(0, 2)) else draw(st.sampled_from(list(self.kinds)))
+            kind = base.get("kind") if draw(st.booleans()) else draw(st.sampled_from(list(self.kinds)))
         return self.array(draw, shape=shape, kind=kind)
 
 
